@@ -1031,7 +1031,9 @@ def clear_config(clear_constants=False):
     saved_constants = _CONSTANTS.copy()
     _CONSTANTS.clear()  # Clear then redefine constants (re-adding bindings).
     for name, value in saved_constants.items():
-      constant(name, value)
+      # Restore directly: `constant()` would reject names that were legitimately
+      # defined in interactive mode (e.g. `X` next to `a.X`) and abort the clear.
+      _CONSTANTS[name] = value
   _IMPORTS.clear()
   with _OPERATIVE_CONFIG_LOCK:
     _OPERATIVE_CONFIG.clear()
